@@ -144,10 +144,15 @@ func (sc *Scenario) vals() []Val {
 	return vs
 }
 
+// curCall is the library call in progress (caller-side callbacks register what they are handed).
+var curCall *Call
+
 // call runs one library call and emits its event.
 func (sc *Scenario) call(kind string, f func(c *Call)) {
 	c := &Call{sc: sc, kind: kind, site: "-"}
+	curCall = c
 	panicked, pv := vt.Try(func() { f(c) })
+	curCall = nil
 	type newReg struct {
 		Role string `json:"role"`
 		Arg  string `json:"arg"`
